@@ -326,7 +326,85 @@ def standin_pauli_sum_collector(tier, seed):
                 cases=cases, distinct=cases, failures=len(fails), exhaustive=False, _fails=fails[:3])
 standin_pauli_sum_collector.prop = "C20"
 
-STANDINS = [standin_collector_schedules, standin_sampler_limiter, standin_engine_stream_faults, standin_pauli_sum_collector]
+def standin_engine_unary_faults(tier, seed):
+    """the non-streaming Quantum Engine calls under server faults: 6 concurrent create-job calls, one of which gets an error reply after the
+    server registered the job; every error class of the API layer (4xx and 5xx). Replies the client declares retryable (500, 503) are retried until
+    success; every other error surfaces to ITS submitter with its code, the other submissions succeed, and no job is created more than
+    (1 + number of retryable replies) times"""
+    import collections
+    from unittest import mock
+
+    import duet
+    from google.api_core import exceptions
+
+    from cirq_google.cloud import quantum
+    from cirq_google.engine import engine_client
+    from cirq_google.engine.engine_client import EngineClient, EngineException
+
+    F_ = "cirq-google/cirq_google/engine/engine_client.py:EngineClient._run_retry_async"
+    retryable = set(engine_client.RETRYABLE_ERROR_CODES)
+    if retryable != {500, 503}:
+        return dict(function=F_, case="engine-unary-faults", bound="-", cases=1, distinct=1, failures=1, exhaustive=False,
+                    _fails=[dict(args=dict(retryable=sorted(retryable)), failed="retryable-set", clause=f"the client's retryable reply codes are {sorted(retryable)}, documented: 500 and 503")])
+    kinds = [exceptions.BadRequest, exceptions.Unauthorized, exceptions.Forbidden, exceptions.NotFound, exceptions.Conflict, exceptions.TooManyRequests, exceptions.ResourceExhausted,
+             exceptions.Cancelled, exceptions.InternalServerError, exceptions.MethodNotImplemented, exceptions.BadGateway, exceptions.ServiceUnavailable, exceptions.GatewayTimeout,
+             exceptions.DeadlineExceeded, exceptions.Unknown, exceptions.DataLoss, exceptions.Aborted, exceptions.FailedPrecondition]
+    kinds = [k for k in kinds if k("x").code is not None]
+    cases, fails = 0, []
+    n = 6
+    for kind in kinds:
+        for slow, registered in ((3, True), (0, False)):
+            cases += 1
+            code = int(kind("x").code)
+            creates, jobs = collections.Counter(), []
+
+            class FakeServer:
+                async def create_quantum_job(self, request):
+                    parent = request.parent
+                    creates[parent] += 1
+                    if parent.endswith(f"prog{slow}") and creates[parent] == 1:
+                        if registered:
+                            jobs.append(parent)
+                        raise kind("fault")
+                    jobs.append(parent)
+                    return quantum.QuantumJob(name=f"{parent}/jobs/job-{len(jobs)}")
+
+            with mock.patch.object(quantum, "QuantumEngineServiceAsyncClient", return_value=FakeServer()):
+                client = EngineClient(verbose=False, max_retry_delay_seconds=1)
+
+                async def submit(i):
+                    try:
+                        _, job = await client.create_job_async("proj", f"prog{i}", None, processor_id="proc")
+                        return ("ok", job.name)
+                    except EngineException as ex:
+                        return ("error", int(ex.code) if ex.code is not None else None)
+                    except Exception as ex:
+                        return ("raised", repr(ex))
+
+                outcomes = duet.run(duet.pmap_async, submit, range(n))
+            problem = None
+            for i, outcome in enumerate(outcomes):
+                parent = f"projects/proj/programs/prog{i}"
+                if i == slow:
+                    if code in retryable:
+                        if outcome[0] != "ok" or creates[parent] != 2:
+                            problem = f"a retryable reply ({code}) to {parent}: the caller got {outcome} after {creates[parent]} requests (expected one retry and success)"
+                    elif outcome != ("error", code) or creates[parent] != 1:
+                        problem = f"a non-retryable reply ({code} {kind.__name__}) to {parent}: the caller got {outcome} and the server saw {creates[parent]} create requests (expected the error with its code, one request)"
+                elif outcome[0] != "ok" or not outcome[1].startswith(parent + "/") or creates[parent] != 1:
+                    problem = problem or f"{parent} (no fault): the caller got {outcome} after {creates[parent]} requests"
+            if problem:
+                fails.append(dict(args=dict(error=kind.__name__, code=code, job_registered_before_the_reply=registered, faulty_submission=slow), failed="unary-fault", clause=problem))
+    seen, uniq = set(), []
+    for f_ in fails:
+        if f_["args"]["error"] not in seen:
+            seen.add(f_["args"]["error"])
+            uniq.append(f_)
+    return dict(function=F_, case="engine-unary-faults", bound=f"{len(kinds)} error classes of google.api_core x (reply lost after / before the job was registered) x 6 concurrent submissions, in-memory server",
+                cases=cases, distinct=cases, failures=len(uniq), exhaustive=True, _fails=uniq[:4])
+standin_engine_unary_faults.prop = "C20"
+
+STANDINS = [standin_collector_schedules, standin_sampler_limiter, standin_engine_stream_faults, standin_pauli_sum_collector, standin_engine_unary_faults]
 
 
 def _replay_collector(ob, seed):
